@@ -52,6 +52,7 @@ JudgeC04(e) ==
     ELSE IF Fields(s).len # Len(e.payload) THEN "C04:length-field"
     ELSE IF e.clsid # <<>> /\ <<Fields(s).cls, Fields(s).id>> # e.clsid THEN "C04:class-id"
     ELSE IF \E i \in 1..Len(e.forms) : e.forms[i] # s THEN "C04:addressing-forms-differ"
+    ELSE IF \E i \in 1..Len(e.mixed) : e.mixed[i] # s THEN "C04:mixed-addressing-built-a-different-frame"
     ELSE IF e.reparse # "msg" THEN "C04:not-accepted-by-parse"
     ELSE IF e.reser # s THEN "C04:reparse-serialize"
     ELSE "ok"
